@@ -105,6 +105,7 @@ func main() {
 		if *tier == "thorough" && os.Getenv("VERIF_MUTANT_DIR") == "" && len(id) == 3 {
 			c.SelfTest = runSelfTest(id, abs, *verif)
 			c.Robust = runRenameRobustness(p, id, abs, *verif)
+			c.Benign = runBenignRefactorings(id, abs, *verif)
 		}
 		if *dump {
 			for _, o := range c.Obs {
